@@ -142,6 +142,8 @@ class SequenceBasedRoutingProblem(RoutingProblem):
             (self.max_vehicles, self.max_sequence_length, len(self.nodes)),
             dtype=int
         )
+        self.var_mapping = []
+        self.fixed_values = dict()
         start = time.time()
         num_vars = 0
         # Loop over (vehicles, positions/sequence, nodes)
@@ -376,6 +378,7 @@ class SequenceBasedRoutingProblem(RoutingProblem):
         self.enumerate_variables()
 
         start = time.time()
+        self.lin_con_names = []
         aval = []
         arow = []
         acol = []
